@@ -288,6 +288,8 @@ class Evaluator:
     term -> term|None applied to every freshly built term (used by E2 to pin
     the command name to a constant)."""
 
+    fork_ifexp = False     # fork a conditional expression whose value is stored (listener model: path-wise stack facts)
+
     def __init__(self, repo: Repo, module: str, cls: Optional[str] = None,
                  rewrite: Optional[Callable[[Term], Optional[Term]]] = None,
                  max_depth: int = 4, inline_static: bool = False,
@@ -351,9 +353,9 @@ class Evaluator:
     # ------------------------------------------------------------------
     # public entry points
     def run_function(self, fn: ast.FunctionDef, args: Dict[str, Term], state: Optional[State] = None,
-                     cls: Optional[str] = None) -> List[Outcome]:
+                     cls: Optional[str] = None, closure: bool = False) -> List[Outcome]:
         st = state.copy() if state is not None else State()
-        st.frames.append({})
+        st.frames.append({k: v for k, v in st.frames[-1].items() if not k.startswith("__")} if closure else {})
         old_cls = self.cls
         if cls is not None:
             self.cls = cls
@@ -467,7 +469,11 @@ class Evaluator:
     st_Global = st_Nonlocal = st_Import = st_ImportFrom = st_Pass
 
     def st_FunctionDef(self, node, st):
-        st.env[node.name] = ("localfunc", node.name)
+        # a local closure: calls are inlined with read access to the enclosing frame
+        if not hasattr(self, "_closures"):
+            self._closures = {}
+        self._closures[id(node)] = node
+        st.env[node.name] = ("localfunc", node.name, id(node))
         return [Outcome(st, None)]
 
     def st_ClassDef(self, node, st):
@@ -826,11 +832,22 @@ class Evaluator:
                 o["items"][idx[1]] = v
             st.effects.append(("storeidx", base, idx, v))
         elif isinstance(target, (ast.Tuple, ast.List)):
+            star = next((i for i, el in enumerate(target.elts) if isinstance(el, ast.Starred)), None)
+            n_el = len(target.elts)
             for i, el in enumerate(target.elts):
-                if v[0] in ("tuple", "list") and len(v) - 1 == len(target.elts):
-                    self.assign(el, v[1 + i], st)
-                else:
+                if star is None:
+                    if v[0] in ("tuple", "list") and len(v) - 1 == n_el:
+                        self.assign(el, v[1 + i], st)
+                    else:
+                        self.assign(el, self.simplify(("sub", v, const(i)), st), st)
+                elif i < star:
                     self.assign(el, self.simplify(("sub", v, const(i)), st), st)
+                elif i == star:
+                    after = n_el - 1 - star
+                    hi = const(-after) if after else NONE
+                    self.assign(el.value, self.simplify(("slice", v, const(i) if i else NONE, hi, NONE), st), st)
+                else:
+                    self.assign(el, self.simplify(("sub", v, const(i - n_el)), st), st)
         elif isinstance(target, ast.Starred):
             self.assign(target.value, ("unknown", "starred"), st)
         else:
@@ -862,6 +879,14 @@ class Evaluator:
             return res
         if isinstance(test, ast.UnaryOp) and isinstance(test.op, ast.Not):
             return [(s, not b, ex) for s, b, ex in self.branch(test.operand, st)]
+        if isinstance(test, ast.Compare) and len(test.ops) > 1:
+            # a <= b <= c  ==  a <= b and b <= c   (operands here are pure)
+            parts = []
+            left = test.left
+            for op, right in zip(test.ops, test.comparators):
+                parts.append(ast.copy_location(ast.Compare(left=left, ops=[op], comparators=[right]), test))
+                left = right
+            return self.branch(ast.copy_location(ast.BoolOp(op=ast.And(), values=parts), test), st)
         outs = self.eval_forking(test, st)
         res = []
         for s, t, ex in outs:
@@ -1069,6 +1094,15 @@ class Evaluator:
             if target is not None:
                 fn, cls_name, bound_self, kind = target
                 return self._inline(node, fn, cls_name, bound_self, st)
+        if isinstance(node, ast.IfExp) and self.fork_ifexp:
+            # a conditional expression whose value is stored: fork like an if statement
+            res = []
+            for s2, b, ex in self.branch(node.test, st):
+                if ex is not None:
+                    res.append((s2, NONE, ex))
+                else:
+                    res.extend(self.eval_forking(node.body if b else node.orelse, s2))
+            return res
         v = self.eval(node, st, stmt_pos=stmt_pos)
         if st.env.get("__raise__") is not None:
             exc = st.env.pop("__raise__")
@@ -1108,7 +1142,7 @@ class Evaluator:
             return [(st, NONE, ("raise", exc))]
         self.depth += 1
         try:
-            outs = self.run_function(fn, args, st, cls=cls_name)
+            outs = self.run_function(fn, args, st, cls=cls_name, closure=id(fn) in getattr(self, "_closures", {}))
         finally:
             self.depth -= 1
         res = []
@@ -1149,6 +1183,13 @@ class Evaluator:
             fn = self._module_function(f.id)
             if fn is not None:
                 return fn, self.cls, None, "function"
+        if isinstance(f, ast.Name):
+            b = st.env.get(f.id)
+            if isinstance(b, tuple) and len(b) == 3 and b[0] == "localfunc":
+                fn = getattr(self, "_closures", {}).get(b[2])
+                if fn is not None and not any(isinstance(x, (ast.Yield, ast.YieldFrom, ast.Nonlocal)) for x in ast.walk(fn)) \
+                        and not any(d for d in fn.decorator_list):
+                    return fn, self.cls, None, "closure"
         if isinstance(f, ast.Call) and norm(f.func) == "getattr" and len(f.args) >= 2:
             recv = self.eval(f.args[0], st)
             name = self.eval(f.args[1], st)
@@ -1202,7 +1243,33 @@ class Evaluator:
             return o["fields"][name]
         if base[0] == "global":
             return glob(base[1] + "." + name)
+        if base == SELF and self.cls:
+            v = self._class_constant(self.cls, name, st)
+            if v is not None:
+                return v
         return ("attr", base, name)
+
+    def _class_constant(self, cls: str, name: str, st: State) -> Optional[Term]:
+        """self.NAME where NAME is a class-level constant (ClassVar or plain class-body assignment of a literal, never a
+        dataclass field or an instance attribute): looked up along the MRO of the class being evaluated, so a subclass
+        override is seen by an inherited method."""
+        try:
+            mro = self.repo.mro(cls)
+        except Exception:
+            return None
+        for c in mro:
+            if name in c.class_attrs:
+                fi = next((f for f in c.own_fields if f.name == name), None)
+                if fi is not None and "ClassVar" not in fi.annotation:
+                    return None          # a dataclass field / annotated instance attribute with a default
+                if any(isinstance(n, ast.Attribute) and n.attr == name and isinstance(n.ctx, ast.Store)
+                       for k in mro for fn in k.methods.values() for n in ast.walk(fn)):
+                    return None          # assigned through an instance somewhere
+                e = c.class_attrs[name]
+                if _is_literal(e):
+                    return self.eval(e, st)
+                return None
+        return None
 
     def ex_JoinedStr(self, node, st):
         parts = []
@@ -1287,6 +1354,7 @@ class Evaluator:
         self.assume(atom, pol, s1)
         a = self.eval(node.body, s1)
         s2 = st.copy()
+        s2.next_id = max(s2.next_id, s1.next_id)      # objects allocated in the two arms must not share ids
         self.assume(atom, not pol, s2)
         b = self.eval(node.orelse, s2)
         st.next_id = max(st.next_id, s1.next_id, s2.next_id)
@@ -1746,6 +1814,10 @@ class Evaluator:
                 return const(r)
             except Exception:
                 return t
+        if fn[0] == "attr" and fn[2] == "join" and is_const(fn[1]) and len(args) == 1 and args[0][0] == "ifexp":
+            # sep.join(A if c else B)  ==  sep.join(A) if c else sep.join(B)
+            c, a1, a2 = args[0][1], args[0][2], args[0][3]
+            return ("ifexp", c, self._simplify_call(("call", fn, (a1,), ()), st), self._simplify_call(("call", fn, (a2,), ()), st))
         if fn[0] == "attr" and fn[2] == "join" and is_const(fn[1]) and len(args) == 1:
             a = args[0]
             items = None
